@@ -284,6 +284,92 @@ def mk_hit_fresh(k, i, call, v, seed):
                snippet, dict(callable=k, call=call, variant=list(v), seed=seed))
 
 
+OBJECT_SNIPPET = r'''
+CTOR = %(ctor)r
+USE = %(use)r
+VARIANT = %(variant)r
+SEED = %(seed)d
+CLAUSE = %(clause)r
+fails, info = check_object(CTOR, USE, VARIANT, SEED)
+bad = [f for f in fails if f[0] == CLAUSE]
+print('C18 clause %%r, one object obj = %%s reused for %%s, arguments %%s/%%s: %%s' %% (CLAUSE, CTOR[:70], USE[:60], VARIANT[0],
+      VARIANT[1], 'FAILS: ' + bad[0][1] if bad else 'holds'))
+sys.exit(1 if bad else 0)
+'''
+
+
+def object_cases():
+    out = []
+    for k in sorted(SP.OBJECTS):
+        for oi, o in enumerate(SP.OBJECTS[k]):
+            for ui, u in enumerate(o['uses']):
+                out.append((k, oi, ui, o['ctor'], u))
+    return out
+
+
+def object_coverage(pub):
+    """Fail closed: every public class needs an OBJECTS entry, and every public method of the class
+    (and of the abel classes nested in it, e.g. Distributions.Results) must occur in some use."""
+    import inspect
+    problems = []
+
+    def methods(cls):
+        out = []
+        for n, m in inspect.getmembers(cls):
+            st = inspect.getattr_static(cls, n, None)
+            if inspect.isclass(m) and getattr(m, '__module__', '').startswith('abel') and not n.startswith('_'):
+                out += methods(m)
+            elif not n.startswith('_') and inspect.isfunction(m) and not isinstance(st, (property,)):
+                out.append(n)
+            elif n in ('__call__', '__add__', '__sub__', '__mul__', '__truediv__') and inspect.isfunction(m):
+                out.append(n)
+        return out
+    OPS = {'__call__': 'obj(', '__add__': ' + ', '__sub__': ' - ', '__mul__': ' * ', '__truediv__': ' / '}
+    for k, o in sorted(pub.items()):
+        if not inspect.isclass(o) or k not in SP.SPECS:
+            continue
+        if k not in SP.OBJECTS:
+            problems.append('%s: public class without an OBJECTS entry' % k)
+            continue
+        text = ' '.join([x['ctor'] for x in SP.OBJECTS[k]] + [u for x in SP.OBJECTS[k] for u in x['uses']]
+                        + SP.SPECS[k]['calls'])
+        for n in sorted(set(methods(o))):
+            pat = OPS.get(n, '.%s(' % n)
+            if pat not in text:
+                problems.append('%s.%s is not exercised on a reused object' % (k, n))
+    return problems
+
+
+def dynamic_objects(H, variants, seed, stats):
+    hits = []
+    for (k, oi, ui, ctor, use) in object_cases():
+        for v in variants:
+            fails, info = H['check_object'](ctor, use, v, seed)
+            stats['object_cases'] = stats.get('object_cases', 0) + 1
+            stats['evaluations'] += 9
+            if info['outcome'] != 'ok':
+                stats['raised'][info['outcome']] = stats['raised'].get(info['outcome'], 0) + 1
+                if v == ('f64', 'C') and not fails:
+                    raise RuntimeError('object spec %s #%d use %d does not produce a valid call: %s' % (k, oi, ui, info['outcome']))
+            else:
+                stats['object_ok'] = stats.get('object_ok', 0) + 1
+            names = [f[0] for f in fails]
+            for clause, detail in fails:
+                if clause == 'object-shares' and 'object-result-mutation' in names:
+                    continue        # the behavioural failure is the stronger evidence of the same sharing
+                if len(use) <= 48:
+                    kd = use
+                else:
+                    kd = 'object%d:use%d:%s' % (oi, ui, (detail.split(' at ')[-1].split(',')[0] if ' at ' in detail
+                                                       else detail.split(' shares')[0]))
+                key = 'C18:%s:%s:%s' % (clause, k, kd)
+                sn = HARNESS_SRC + OBJECT_SNIPPET % dict(ctor=ctor, use=use, variant=tuple(v), seed=seed, clause=clause)
+                hits.append(Hit(clause, key, '%s: object built once and reused, use %s: %s [arguments %s/%s]'
+                                % (k, use[:60], detail, v[0], v[1]), sn,
+                                dict(callable=k, ctor=ctor, use=use, variant=list(v), seed=seed)))
+    return hits
+
+
 def extra_known():
     p = os.environ.get('VERIF_C18_EXTRA_FINDINGS')          # self-test only (proposed, unmerged entries)
     if not p:
@@ -305,6 +391,9 @@ def run(ctx):
     pub = SP.public_callables()
     missing = sorted(k for k in pub if k not in SP.SPECS and k not in SP.EXCLUDED)
     stale = sorted(k for k in list(SP.SPECS) + list(SP.EXCLUDED) if k not in pub)
+    objprob = object_coverage(pub)
+    if objprob:
+        broken.append(('spec-table', 'tools/translate/_alias_specs.py (OBJECTS)', '; '.join(objprob)))
     if missing or stale:
         static = ''
         if res is not None:
@@ -365,6 +454,7 @@ def run(ctx):
         fresh_sample = set(keys)
     try:
         hits, st, dyn_w, dyn_r = dynamic(ctx, H, variants, seeds, fresh_sample, rng)
+        hits += dynamic_objects(H, variants, seeds[0], st)
     except RuntimeError as e:
         ctx.report_broken('check-machinery', 'dynamic harness', str(e))
         hits, st, dyn_w, dyn_r = [], dict(evaluations=0, cases=0, ok_cases=0, raised={}, by_variant={}, fresh_compared=0,
@@ -387,6 +477,7 @@ def run(ctx):
                    samples=st['samples'], traces_validated_against_impl=agree,
                    input_distribution=dict(by_variant=st['by_variant'], raised=st['raised'], cases=st['cases'],
                                            ok_cases=st['ok_cases'], fresh_process_comparisons=st['fresh_compared'],
+                                           reused_object_cases=st.get('object_cases', 0), reused_object_ok=st.get('object_ok', 0),
                                            seeds=seeds),
                    callables=dict(public=len(pub), with_spec=len(SP.SPECS), excluded=SP.EXCLUDED,
                                   translated=len(translated),
